@@ -588,6 +588,20 @@ class Capture:
         self.applies: T.List[T.Dict[str, T.Any]] = []
 
 
+def nested_works(works: T.List[T.Dict[str, T.Any]]) -> bool:
+    """some modified node lies inside another modified node of the same file (their text extents overlap)"""
+    sp = []
+    for w in works:
+        m = [int(x) for x in w['meta'].split(',')]
+        if m[0] == 0:
+            sp.append((w['file'], (m[2], m[3]), (m[4], m[5])))
+    for i, (f1, a1, b1) in enumerate(sp):
+        for j, (f2, a2, b2) in enumerate(sp):
+            if i != j and f1 == f2 and a1 <= a2 and b2 <= b1:
+                return True
+    return False
+
+
 def _span(n: T.Any) -> T.Tuple[int, int, int, int]:
     return (int(n.lineno), int(n.colno), int(getattr(n, 'end_lineno', n.lineno)), int(getattr(n, 'end_colno', n.colno)))
 
@@ -617,16 +631,50 @@ def install_hook(cap: Capture) -> T.Callable[[], None]:
     from mesonbuild import rewriter as RW
     orig = RW.Rewriter.apply_changes
 
+    class OrderPrinter(RW.AstPrinter):
+        """apply_changes makes one printer per work item, in the order it will apply them: remember each root node"""
+        log: T.List[T.Any] = []
+
+        def __init__(self, *a: T.Any, **k: T.Any) -> None:
+            super().__init__(*a, **k)
+            self._root_seen = False
+
+        def _root(self, node: T.Any) -> None:
+            if not self._root_seen:
+                self._root_seen = True
+                OrderPrinter.log.append(node)
+
+        def visit_ArrayNode(self, node: T.Any) -> None:
+            self._root(node)
+            super().visit_ArrayNode(node)
+
+        def visit_FunctionNode(self, node: T.Any) -> None:
+            self._root(node)
+            super().visit_FunctionNode(node)
+
+        def visit_AssignmentNode(self, node: T.Any) -> None:
+            self._root(node)
+            super().visit_AssignmentNode(node)
+
     def hooked(self: T.Any) -> None:
+        queued = list(self.modified_nodes) + list(self.to_remove_nodes) + list(self.to_add_nodes)
         works = [_work(0, n) for n in self.modified_nodes] + [_work(1, n) for n in self.to_remove_nodes] + \
                 [_work(2, n) for n in self.to_add_nodes]
-        rec: T.Dict[str, T.Any] = {'nm': len(self.modified_nodes), 'nr': len(self.to_remove_nodes), 'works': works, 'exc': None}
+        rec: T.Dict[str, T.Any] = {'nm': len(self.modified_nodes), 'nr': len(self.to_remove_nodes), 'works': works, 'exc': None,
+                                   'order': None}
         cap.applies.append(rec)
+        OrderPrinter.log = []
+        saved = RW.AstPrinter
+        RW.AstPrinter = OrderPrinter
         try:
             orig(self)
         except Exception as e:
             rec['exc'] = type(e).__name__
             raise
+        finally:
+            RW.AstPrinter = saved
+            # indices (into the queue: modified, removed, added) of the PRINTED items in the order they were handled
+            rec['order'] = [next((i for i, q_ in enumerate(queued) if q_ is n), -1) for n in OrderPrinter.log]
     RW.Rewriter.apply_changes = hooked
 
     def restore() -> None:
